@@ -200,4 +200,17 @@ CLAIMED["C18"] = dict(
     note="Trusted: Coq kernel; tools/translate_copy.py (probes). Partial: Python's copy/pickle internals are modelled "
          "only as far as the two hooks and the memo; one recorded finding (trees from FortranFileReader).",
     technique="Rocq proof (copy protocol on trees by induction) + probed per-class protocol table + deepcopy/pickle search")
+CLAIMED["C20"] = dict(
+    design_ref="DESIGN.md 4 (C20)",
+    text="Theorems (every table, every leaf oracle, every item stream): the per-line parse cache keeps the "
+         "statement-level work linear -- cache keys stay pairwise distinct through every rule invocation, belong to "
+         "items of the source, and the number of statement-level matches started equals the number of keys, hence "
+         "is at most items x classes (generic invariant pass over the engine model + pigeonhole). Tie: the model's "
+         "constructor-call count AND statement-level match count are compared for equality with the implementation's "
+         "on the catalogue programs (exact, reader level). Search: catalogue of 50 size-indexed families x standards: "
+         "attempts(f(2n)) <= 4 * attempts(f(n)) counting every Base.__new__ call, with a call budget.",
+    note=ENGINE_NOTE + " Partial: no theorem bounds the number of rule-constructor calls (it is exponential for the "
+         "recorded families: nested action-terminated labelled DO, nested name(args) references); expression-level "
+         "calls are outside the engine model and are measured only.",
+    technique="Rocq proof (parse-cache invariant: statement-level matches are linear) + exact cost correspondence + growth measurement over a family catalogue")
 NOT_CLAIMED = {}
